@@ -163,6 +163,15 @@ def thorough(pid, mod, ctx):
         for d in sorted(os.listdir(rd)):
             if d.startswith(pid + '-'):
                 patches.append(('reverts/' + d, os.path.join(rd, d)))
+    # (c) specificity: behaviour-preserving rewrites of the code this property is anchored in (written by independent
+    # sub-agents, equivalence checked by differential harnesses) must not be reported
+    benign = set()
+    bd = os.path.join(VERIF, 'selftest', 'benign')
+    if os.path.isdir(bd):
+        for d in sorted(os.listdir(bd)):
+            if d.startswith(pid + '-') and d.endswith('.diff'):
+                patches.append(('benign/' + d, os.path.join(bd, d)))
+                benign.add('benign/' + d)
     from facts import repo_root
     root = repo_root()
     if os.environ.get('VERIF_SELFTEST') == '0' or os.environ.get('VERIF_REPO'):
@@ -188,6 +197,7 @@ def thorough(pid, mod, ctx):
             shutil.rmtree(tmp, ignore_errors=True)
             raise
     missed = []
+    alarms = []
     for name, tmp, pr in procs:
         try:
             out, _ = pr.communicate(timeout=900)
@@ -196,10 +206,16 @@ def thorough(pid, mod, ctx):
             shutil.rmtree(tmp, ignore_errors=True)
         rules = sorted({l.split('rule=')[1].split(' ')[0] for l in out.splitlines() if 'refuted: rule=' in l})
         info['selftest'][name] = {'exit': rc, 'rules': rules[:6]}
-        if rc == 0:
+        if name in benign:
+            info['selftest'][name]['expected'] = 'silent (0) or unrecognised shape (2)'
+            if rc == 1:
+                alarms.append('%s (%s)' % (name, ', '.join(rules[:3])))
+        elif rc == 0:
             missed.append(name)
     if missed and not ctx.findings:
         raise AnalysisBroken('sensitivity self-test: the check no longer reports %s' % ', '.join(missed))
+    if alarms and not ctx.findings:
+        raise AnalysisBroken('specificity self-test: the check reports the behaviour-preserving change %s' % '; '.join(alarms))
     return info
 
 
